@@ -296,4 +296,6 @@ def run(ck, tier):
     ck.guard(_loops.rule_cursor_loops, ck, cx, 'R9', _rc(cx)[0], 'the thread serving the connection (on the asyncio and Twisted servers: the event loop serving every connection) spins for ever on one malformed request', 2)
     from .c17 import r8_handler_bound_to_its_server
     ck.guard(r8_handler_bound_to_its_server, ck, cx, 'R10')
+    from .c17 import r9_read_size_covers_an_adu
+    ck.guard(r9_read_size_covers_an_adu, ck, cx, 'R11')
     return cx.idx
